@@ -102,9 +102,13 @@ pub fn parse_byte_list(input: &str) -> Result<Vec<u8>, DataError> {
         }
     }
 
-    let real_len = input.len() - start_quote_count * 2;
+    let real_len = input.chars().count().saturating_sub(start_quote_count * 2);
 
     if start_quote_count >= 2 {
+        if input.len() < start_quote_count * 2 {
+            // nothing but quotes, the empty byte list
+            return Ok(bytes);
+        }
         parse_byte_list_numbers(&input[start_quote_count..(input.len() - start_quote_count)])
     } else {
         let mut check_escape = false;
